@@ -90,3 +90,15 @@ func jsonDecode(t reflect.Type, text string, ans map[string]any) {
 		}
 	}
 }
+
+// AsPtr returns a pointer to a copy of x (nil for nil): named non-struct response types
+// implement their sum interface on the pointer receiver.
+func AsPtr(x any) any {
+	if x == nil {
+		return nil
+	}
+	v := reflect.ValueOf(x)
+	p := reflect.New(v.Type())
+	p.Elem().Set(v)
+	return p.Interface()
+}
